@@ -15,7 +15,7 @@ CLAIMED = {
         "explicit-state enumeration of all dates x step alphabet against a civil-calendar odometer model",
         "DESIGN.md 2/C01"),
     "C02": (
-        "Explicit-state exploration of the real conversion code: (a) every civil date (thorough: all 3,652,061; quick: the fixed windows + one seed-chosen window) with the transition 'next civil day' checked against the successor relation on lunar dates in model order, and the round trip civil->lunar->civil; (b) every lunation of lunar years 0..9999 x candidate days 0..31 for acceptance and lunar->civil->lunar, every non-existent leap month refused; (c) all ordered pairs from a lunation and the next two x days {1,2,15,last}^2 for before/after vs chronological order; LunarDay.next(n) on first/last days. Complete enumeration finds skipped/duplicated/mis-labelled days that no sample of conversions can. The quick tier also visits the first day, the day before it and the 15th day of every lunation of 0..9999. LunarHour::next over the day border from the first / last day of every lunation lands on the neighbouring lunar day.",
+        "Explicit-state exploration of the real conversion code: (a) every civil date (thorough: all 3,652,061; quick: the fixed windows + one seed-chosen window) with the transition 'next civil day' checked against the successor relation on lunar dates in model order, and the round trip civil->lunar->civil; (b) every lunation of lunar years 0..9999 x candidate days 0..31 for acceptance and lunar->civil->lunar, every non-existent leap month refused; (c) all ordered pairs from a lunation and the next two x days {1,2,15,last}^2 for before/after vs chronological order; LunarDay.next(n) on first/last days. Complete enumeration finds skipped/duplicated/mis-labelled days that no sample of conversions can. The quick tier also visits the first day, the day before it and the 15th day of every lunation of 0..9999. LunarHour::next over the day border from the first / last day of every lunation lands on the neighbouring lunar day. (d) the months handed out by LunarYear::get_months() of every lunar year 1..9998 outside the reform era are in chronological order (first days one month length apart, before/after in list order).",
         "Trusted: civil odometer; the lunation table read through the public API and laid out in model order (the table itself is judged by C03/C04/C05). Known findings: the reform-era table defects (AD 8-9, 23-25, 239-240) listed in known_findings.json by exact input.",
         "explicit-state enumeration of all civil dates / all lunar dates with successor-relation and round-trip oracles",
         "DESIGN.md 2/C02"),
